@@ -445,3 +445,69 @@ def suspend_scenario(draw):
                         "period": None, "first": None, "frames": kf})
     return {"period": "0.125", "ticks": draw(st.integers(6, 14)), "inits": [[p, 0] for p in NUM],
             "framers": framers}
+
+
+@st.composite
+def guard_scenario(draw):
+    """Directed family for entry guards: a framer that keeps attempting transitions into guarded frames
+    (frame `let` guards at one or two levels, plain auxiliaries whose first frames are guarded, the same
+    original aux listed by two frames) while a driver makes the guards flip from false to true (and, for
+    `==` guards, back to false) at drawn ticks; the guarded frames lead back so attempts repeat."""
+    geq = lambda k: {"kind": "cmp", "state": ".n.a", "op": ">=", "goal": k, "neg": False}
+    eq = lambda k: {"kind": "cmp", "state": ".n.a", "op": "==", "goal": k, "neg": False}
+    lt = lambda k: {"kind": "cmp", "state": ".n.a", "op": "<", "goal": k, "neg": False}
+    rec = lambda k: {"kind": "recurred", "op": ">=", "goal": k, "neg": False}
+
+    def guard():
+        k = draw(st.integers(1, 7))
+        return draw(st.sampled_from([geq, geq, eq, lt]))(k)
+    obs = lambda ctx, p: {"kind": "inc", "dst": p, "val": 1, "ctx": ctx}
+    frames = []
+    # start frame a keeps trying to go to a guarded target
+    nested = draw(st.booleans())
+    tgt = "c" if nested else "b"
+    a_acts = [obs("recur", ".n.c")]
+    a_acts.append({"kind": "go", "far": tgt, "needs": [] if draw(st.booleans()) else [rec(draw(st.integers(0, 2)))]})
+    if draw(st.booleans()):
+        a_acts.append({"kind": "go", "far": "d", "needs": [rec(draw(st.integers(2, 5)))]})
+    frames.append({"name": "a", "over": None, "acts": a_acts})
+    b_acts = [obs("enter", ".n.b"), obs("exit", ".n.b")]
+    if draw(st.integers(0, 3)) > 0:
+        b_acts.insert(0, {"kind": "let", "needs": [guard()] + ([guard()] if draw(st.integers(0, 3)) == 0 else [])})
+    auxes = []
+    use_aux = draw(st.integers(0, 2)) > 0
+    if use_aux:
+        b_acts.append({"kind": "aux", "name": "x0", "needs": []})
+        xa = {"name": "xa", "over": None, "acts": [obs("recur", ".n.c")]}
+        if draw(st.integers(0, 2)) > 0:
+            xa["acts"].insert(0, {"kind": "let", "needs": [guard()]})
+        auxes.append({"name": "x0", "sched": "aux", "order": None, "period": None, "first": None, "frames": [xa]})
+    b_acts.append({"kind": "go", "far": draw(st.sampled_from(["a", "a", "d", "me"])), "needs": [rec(draw(st.integers(1, 3)))]})
+    frames.append({"name": "b", "over": None, "acts": b_acts})
+    if nested:
+        c_acts = [obs("enter", ".n.b")]
+        if draw(st.integers(0, 2)) > 0:
+            c_acts.insert(0, {"kind": "let", "needs": [guard()]})
+        if use_aux and draw(st.booleans()):
+            c_acts.append({"kind": "aux", "name": "x0", "needs": []})    # same original in parent and child
+        c_acts.append({"kind": "go", "far": draw(st.sampled_from(["a", "b", "d"])), "needs": [rec(draw(st.integers(1, 3)))]})
+        frames.append({"name": "c", "over": "b", "acts": c_acts})
+    d_acts = [obs("enter", ".n.b")]
+    if use_aux and draw(st.booleans()):
+        d_acts.append({"kind": "aux", "name": "x0", "needs": []})          # same original in a sibling frame
+    if draw(st.booleans()):
+        d_acts.insert(0, {"kind": "let", "needs": [guard()]})
+    d_acts.append({"kind": "go", "far": draw(st.sampled_from(["a", "b", tgt])), "needs": [rec(draw(st.integers(0, 2)))]})
+    frames.append({"name": "d", "over": None, "acts": d_acts})
+    first = draw(st.sampled_from([None, None, "a", "b", "d"]))
+    framers = [{"name": "drv", "sched": "active", "order": draw(st.sampled_from(["front", "back"])), "period": None, "first": None,
+                "frames": [{"name": "drva", "over": None, "acts": [{"kind": "inc", "dst": ".n.a", "val": 1, "ctx": "recur"}]}]},
+               {"name": "m0", "sched": draw(st.sampled_from(["active", "active", "inactive"])), "order": None, "period": None,
+                "first": first, "frames": frames}] + auxes
+    if framers[1]["sched"] == "inactive" or draw(st.integers(0, 3)) == 0:
+        t = draw(st.integers(1, 5))
+        framers.append({"name": "m1", "sched": "active", "order": None, "period": None, "first": None, "frames": [
+            {"name": "k", "over": None, "acts": [{"kind": "go", "far": "k2", "needs": [geq(t)]}]},
+            {"name": "k2", "over": None, "acts": [{"kind": "bid", "verb": draw(st.sampled_from(["start", "start", "ready", "stop"])),
+                                                     "targets": ["m0"]}]}]})
+    return {"period": "0.125", "ticks": draw(st.integers(6, 14)), "inits": [[p, 0] for p in NUM], "framers": framers}
